@@ -214,6 +214,16 @@ def rule_b3(ctx: Ctx) -> None:
 from ..core import reach_conditions as _reach_conditions  # noqa: E402
 
 
+def _classify_for(fi: FuncInfo, test: ast.AST):
+    p = fi.params[1] if len(fi.params) > 1 else "patt"
+    t = unparse(test)
+    if t == f"isinstance({p}, Perm)":
+        return "T"
+    if t in (f"not isinstance({p}, Perm)", f"isinstance({p}, MeshPatt)"):
+        return "F"
+    return None
+
+
 def rule_b4(ctx: Ctx) -> None:
     repo = ctx.repo
     f = repo.need_method("MeshPatt", "occurrences_in")
@@ -232,22 +242,31 @@ def rule_b4(ctx: Ctx) -> None:
         return isinstance(n, ast.Call) and call_name(n) is not None and len(call_name(n)) == 2 and call_name(n)[0] == f.params[0] and call_name(n)[1] in ("_occurrences_in_perm", "_occurrences_in_mesh") \
             and [unparse(a) for a in n.args] == [patt]
 
-    reach = _reach_conditions(f, wanted, classify)
-    by = {}
-    for n, c in reach:
-        by.setdefault(call_name(n)[1], set()).add(c)
-    if set(by) != {"_occurrences_in_perm", "_occurrences_in_mesh"} or any(len(v) != 1 for v in by.values()):
-        raise AnalysisError(f"{f.where}: dispatch on the kind of target not recognised (calls found under: { {k: sorted(v) for k, v in by.items()} })")
-    tp, tm = next(iter(by["_occurrences_in_perm"])), next(iter(by["_occurrences_in_mesh"]))
-    node = min((n for n, _c in reach), key=lambda n: n.lineno)
+    from ..core import method_reference_polarity
+
+    # the two searches may be called directly or selected as bound-method values; the function that chooses may be a helper
+    pol, host = None, f
+    for cand in [f] + [m2 for m2 in repo.cls("MeshPatt").methods.values() if m2 is not f]:
+        pol = method_reference_polarity(cand, ["_occurrences_in_perm", "_occurrences_in_mesh"], (lambda c: (lambda test: _classify_for(c, test)))(cand))
+        if pol is not None:
+            host = cand
+            break
+    if pol is None:
+        raise AnalysisError(f"{f.where}: dispatch on the kind of target not recognised (no function refers to both searches)")
+    if host is not f and not any(isinstance(n, ast.Attribute) and n.attr == host.name for n in ast.walk(f.node)):
+        raise AnalysisError(f"{f.where}: the dispatching helper {host.name} is not used by occurrences_in")
+    tp, tm = pol["_occurrences_in_perm"], pol["_occurrences_in_mesh"]
+    node = min((n for n in walk_no_nested(host.node) if isinstance(n, ast.Attribute) and n.attr in ("_occurrences_in_perm", "_occurrences_in_mesh")), key=lambda n: n.lineno)
+    node = next((st for st in walk_no_nested(host.node) if isinstance(st, ast.stmt) and st is not host.node and any(sub is node for sub in ast.walk(st))), node)
+    f_disp = host
     if tp == "T" and tm == "F":
-        ctx.ok("C03-B4", f.where, "Perm targets -> permutation search, every other admissible target -> mesh search", node, f)
+        ctx.ok("C03-B4", f_disp.where, "Perm targets -> permutation search, every other admissible target -> mesh search", node, f_disp)
     elif tp == "F" and tm == "T":
-        ctx.violation("C03-B4", f, node, "dispatch sends Perm targets to `_occurrences_in_mesh` and other targets to `_occurrences_in_perm`; expected _occurrences_in_perm / _occurrences_in_mesh")
+        ctx.violation("C03-B4", f_disp, node, "dispatch sends Perm targets to `_occurrences_in_mesh` and other targets to `_occurrences_in_perm`; expected _occurrences_in_perm / _occurrences_in_mesh")
     else:
         raise AnalysisError(f"{f.where}: dispatch on the kind of target not recognised (perm search under {tp}, mesh search under {tm})")
     # an assertion on the target that comes before the dispatch restricts both branches
-    first_disp = min((f.body.index(st) for st in f.body if any(wanted(n) for n in ast.walk(st))), default=len(f.body))
+    first_disp = min((f.body.index(st) for st in f.body if any(isinstance(n, ast.Attribute) and n.attr in ("_occurrences_in_perm", "_occurrences_in_mesh", f_disp.name) for n in ast.walk(st))), default=len(f.body))
     asserts = [st for st in f.body[:first_disp] if isinstance(st, ast.Assert)]
     admissible = None
     for a in asserts:
